@@ -1011,6 +1011,36 @@ func (b builtLoader) GetDelegation(c cid.Cid) (*delegation.Token, error) {
 	return d, nil
 }
 
+// jsonLoader hands out, for every delegation the store holds, the object obtained by decoding
+// the DAG-JSON form of the constructed token (same content, another decoder, another signature
+// over the same payload where the algorithm is randomised).
+type jsonLoader struct{ w *worldExec }
+
+func (b jsonLoader) GetDelegation(c cid.Cid) (*delegation.Token, error) {
+	d, err := b.w.store.GetDelegation(c)
+	if err != nil || d == nil {
+		return d, err
+	}
+	if rec, ok := b.w.ledger[cidHex(c.Bytes())]; ok && rec.kind == "dlg" {
+		if obj, ok := rec.obj.(*delegation.Token); ok && obj != nil {
+			var out *delegation.Token
+			guard(b.w.o, "delegation.FromDagJson", func() {
+				js, jerr := obj.ToDagJson(b.w.cast.ent(rec.dspec.Iss).priv)
+				if jerr != nil {
+					return
+				}
+				if dj, derr := delegation.FromDagJson(js); derr == nil && dj != nil {
+					out = dj
+				}
+			})
+			if out != nil {
+				return out, nil
+			}
+		}
+	}
+	return d, nil
+}
+
 func (w *worldExec) decideOne(label string, c *CheckSpec, useHook bool) decision {
 	return w.decideProv(label, c, useHook, "")
 }
@@ -1037,6 +1067,29 @@ func (w *worldExec) decideProv(label string, c *CheckSpec, useHook bool, prov st
 	}
 	if prov == "dlg-built" || prov == "all-built" {
 		inner = builtLoader{w}
+	}
+	if prov == "inv-json" || prov == "all-json" {
+		obj, ok := a.obj.(*invocation.Token)
+		if !ok || obj == nil {
+			return decision{}
+		}
+		var ij *invocation.Token
+		guard(o, "invocation.FromDagJson", func() {
+			js, jerr := obj.ToDagJson(w.cast.ent(spec.Iss).priv)
+			if jerr != nil {
+				return
+			}
+			if x, derr := invocation.FromDagJson(js); derr == nil {
+				ij = x
+			}
+		})
+		if ij == nil {
+			return decision{}
+		}
+		inv = ij
+	}
+	if prov == "dlg-json" || prov == "all-json" {
+		inner = jsonLoader{w}
 	}
 	ld := &faultLoader{inner: inner, faults: c.LFaults, o: o}
 	ld.swap = func(label string) (*delegation.Token, string) {
